@@ -113,7 +113,7 @@ Definition hdr_op (what fld : N) (raw : list N) (v : N) : obs :=
   | 3 => if (length raw =? 1)%nat then
            XVal (match body_header_new_from_buf raw with Some _ => 1 | None => 0 end) else XBad
   | 4 => XBytes (transport_new v)
-  | 5 => XBytes (control_header_new (negb (nth_n raw 0 =? 0)) (negb (nth_n raw 1 =? 0)) (nth_n raw 2) (nth_n raw 3))
+  | 5 => XBytes (control_header_new (negb (nth_n raw 0 =? 0)) (negb (nth_n raw 1 =? 0)) (nth_n raw 2) (cmd_from_u8 (nth_n raw 3)))
   | 6 => XBytes (routing_entry_new (nth_n raw 0) (nth_n raw 1) (nth_n raw 2) (nth_n raw 3))
   | 7 => XBytes (pci_new v)
   | 8 => XBytes (iana_new v)
